@@ -149,6 +149,18 @@ CHECKS.update({
         ref="4/C06"),
 })
 
+CHECKS.update({
+    "C05": dict(
+        technique="static analysis: panic-site and narrow-arithmetic inventory over lexer/parser/compiler, recursive SCCs with depth-guard recognition (token-consuming cycles vs AST walks), checkpoint/restore self-reachability, natural-loop gate / progress-edge analysis",
+        text="Decides four structural clauses over every function of the front end: no explicit panic site and no unsafe narrow "
+             "arithmetic; every token-consuming recursive cycle is depth guarded; no function re-parses with a self-reaching "
+             "sub-parser after restoring a checkpoint around another one (exactly one offender: 2^n on nested parenthesised "
+             "assignments); every loop of the lexer/parser has an input-state gate or a progress edge on each cycle. The "
+             "unguarded parser recursion, the exponential speculation and the u8 overflows are genuine, reproduced and listed. "
+             "Polynomial degree and memory use are not decided.",
+        ref="4/C05"),
+})
+
 NOT_APPLICABLE = {
     "C04": "value equivalence with the TypeScript emit; no structural mechanism exists (DESIGN.md 4/C04)",
     "C09": "behaviour of a fixed-point loader over all graphs x schedules; structural parts are decided under C02/C19",
